@@ -1,33 +1,46 @@
 (* C01 -- print / re-parse round trip: the theorems.
 
    Model (Model.v): tokens; the expression core of EdgeQL as trees [expr]; [pp_items]/[pp] mirroring
-   edb/edgeql/codegen.py for that core; [parse] a precedence-climbing parser whose every shift/reduce
-   decision is taken from Gen_Grammar.v, which is regenerated on every run from
-   edb/edgeql/parser/grammar/precedence.py, tokens.py and the operator productions of expressions.py.
+   edb/edgeql/codegen.py for that core (including _prefix_swallows_op / _visit_left_operand, the DETACHED
+   operand parentheses, `+ +x` spacing and <required T>); [parse] a precedence-climbing parser whose every
+   shift/reduce decision is taken from Gen_Grammar.v, which is regenerated on every run from
+   edb/edgeql/parser/grammar/precedence.py, tokens.py, the operator productions of expressions.py and the
+   two operator sets _WEAKER_THAN_NOT / _TIGHTER_THAN_UMINUS of codegen.py.
 
-   [wf e] (decidable, computed with the generated tables) says: e is built the way the parser builds trees
-   (signs folded into numeric literals, paths/indirections flattened, non-empty lists where the grammar
-   needs them, known operator ids) and every operand the printer writes WITHOUT parentheses stays in
-   place under the precedence tables (see Model.v, section "when does the round trip hold?").
-   The trees excluded by the second part are exactly the printer defects recorded as known findings
-   (C01-prefix-left-operand, C01-shape-on-prefix, C01-detached-postfix); Refuted.v shows they are real.
+   [image e] (decidable, PURELY STRUCTURAL, no precedence table involved) says: e is built the way the
+   parser builds trees -- signs folded into numeric literals, paths / indirections flattened, non-empty lists
+   where the grammar needs them, known operator ids, well-formed slices, no duplicate keyword arguments --
+   and no shape has an empty element list (`x {}` is printed as `x` on purpose; see Refuted.v).
+   [wf e] is the weaker, table-computed condition the induction actually needs ("every operand the printer
+   writes without parentheses stays in place"); C01_image_wf shows that with the repaired printer it follows
+   from [image] alone, i.e. the printer no longer relies on any side condition about operator nesting.
 
    All statements are for EVERY tree: no bound on depth, width or operator nesting. *)
 From Coq Require Import List NArith Bool.
-From Verif.C01 Require Import Gen_Grammar Model ProofsBase Proofs ProofsLex.
+From Verif.C01 Require Import Gen_Grammar Model ProofsBase Proofs ProofsImage ProofsLex.
 Import ListNotations.
 
-(* the text printed for a well-formed tree parses back to the same tree *)
-Theorem C01_roundtrip : forall e, wf e = true -> parse (pp e) = Some e.
-Proof. exact roundtrip. Qed.
+(* the text printed for a parser-shaped tree parses back to the same tree *)
+Theorem C01_roundtrip : forall e, image e = true -> parse (pp e) = Some e.
+Proof. exact roundtrip_image. Qed.
 Print Assumptions C01_roundtrip.
+
+(* the structural class is inside the class the induction is carried out on *)
+Theorem C01_image_wf : forall e, image e = true -> wf e = true.
+Proof. exact image_wf. Qed.
+Print Assumptions C01_image_wf.
+
+(* the same for the (larger) table-computed class *)
+Theorem C01_roundtrip_wf : forall e, wf e = true -> parse (pp e) = Some e.
+Proof. exact roundtrip. Qed.
+Print Assumptions C01_roundtrip_wf.
 
 (* printing the re-parsed tree gives the same token text again *)
 Theorem C01_idempotent : forall e e', wf e = true -> parse (pp e) = Some e' -> pp e' = pp e.
 Proof. exact idempotent. Qed.
 Print Assumptions C01_idempotent.
 
-(* the general statement the two above are instances of: under ANY enclosing production c and followed by
+(* the general statement the ones above are instances of: under ANY enclosing production c and followed by
    ANY continuation k on which the operator loop would return r, the printed tree is consumed as one operand *)
 Theorem C01_in_context : forall e, wf e = true -> forall c k r f1,
   tight c e = true -> rspine e k = true -> okfollow k = true ->
@@ -40,8 +53,8 @@ Print Assumptions C01_in_context.
    lexer: [no_fuse] checks every adjacent pair of the printed item stream against [fuses], an
    over-approximation of "the lexer would not read these two spellings as these two tokens" that the harness
    sweeps against the real Rust lexer for every pair of token-class representatives on every run.
-   [lex_ok] excludes exactly `+` directly applied to `+` (C01_lex_refuted: `+ +x` prints `++x`). *)
-Theorem C01_lex_stable : forall e, wf e = true -> lex_ok e = true -> no_fuse (pp_items e) = true.
+   (No side condition any more: `+ +x` is printed with a space.) *)
+Theorem C01_lex_stable : forall e, wf e = true -> no_fuse (pp_items e) = true.
 Proof. exact lex_stable. Qed.
 Print Assumptions C01_lex_stable.
 
@@ -54,7 +67,7 @@ Definition ex1 : expr :=
        (EBin 7%N (EConst (CNum KInt) 0 2%N) (EUn UMinus ex_path)).  (* (2 ^ -std::Foo.bar.<a1@p[is array<T>]) *)
 Definition ex2 : expr :=
   EIf true (EIs true ex_x (TyName None 7%N))
-      (ECall (Some 6%N) 10%N [ESeq QTuple [EConst CStr 0 0%N]; ESeq QSet []] [(20%N, ECast true (TyName None 7%N) (EUn UMinus ex_x))])
+      (ECall (Some 6%N) 10%N [ESeq QTuple [EConst CStr 0 0%N]; ESeq QSet []] [(20%N, ECast COpt (TyName None 7%N) (EUn UMinus ex_x))])
       (EIf false (EUn UNot (EBin 20%N ex_x (EConst CStr 0 1%N)))
            (EIndir ex_path [(false, Some (EConst (CNum KInt) 2 1%N), None); (true, None, Some ex_x)])
            (EShape (EDetached ex_x) [(4%N, None); (5%N, Some (ENamedTuple [(1%N, EParam 0%N)]))])).
@@ -65,4 +78,15 @@ Example C01_wf_ex1 : wf ex1 = true. Proof. vm_compute. reflexivity. Qed.
 Example C01_wf_ex2 : wf ex2 = true. Proof. vm_compute. reflexivity. Qed.
 Example C01_wf_ex3 : wf ex3 = true. Proof. vm_compute. reflexivity. Qed.
 Example C01_rt_ex2 : parse (pp ex2) = Some ex2. Proof. vm_compute. reflexivity. Qed.
-Example C01_lex_ex2 : lex_ok ex2 = true /\ no_fuse (pp_items ex2) = true. Proof. split; vm_compute; reflexivity. Qed.
+Example C01_lex_ex2 : no_fuse (pp_items ex2) = true. Proof. vm_compute; reflexivity. Qed.
+
+(* trees that needed a side condition before the printer repairs are now inside [image] *)
+Definition ex4 : expr :=                                             (* (-5) ^ 2, (NOT x) = 2, (<T>x){a}, DETACHED (x.y), + +x *)
+  ESeq QTuple [EBin 7%N (EConst (CNum KInt) 1 3%N) (EConst (CNum KInt) 0 2%N);
+               EBin 16%N (EUn UNot ex_x) (EConst (CNum KInt) 0 2%N);
+               EShape (ECast CReq (TyName None 7%N) ex_x) [(4%N, None)];
+               EDetached (EPathRef None 0%N [SPtr false 1%N]);
+               EUn UPlus (EUn UPlus ex_x)].
+Example C01_image_ex : image ex1 = true /\ image ex2 = true /\ image ex3 = true /\ image ex4 = true.
+Proof. repeat split; vm_compute; reflexivity. Qed.
+Example C01_rt_ex4 : parse (pp ex4) = Some ex4 /\ no_fuse (pp_items ex4) = true. Proof. split; vm_compute; reflexivity. Qed.
